@@ -16,7 +16,7 @@ import itertools
 import json
 
 from mc import env, mibspec, pysnmp_rec, refir
-from mc.catalogue import U32, U64
+from mc.catalogue import U32, U64, I64MIN
 
 BOUNDS = {
     'quick': 'refinements: lists of <=2 items over a 32-item range alphabet (every ordered pair of 7 boundary points, literals of every class) x 3 placements x all type words; '
@@ -26,7 +26,7 @@ BOUNDS = {
 ASSUMPTIONS = ['defaults are compared by denotation (int / octets / label set / OID), not by the string form chosen',
                'SNMPv2-SMI stand-in defines the application types as RFC 2578 does']
 
-_PTS = [-U64, -10, -1, 0, 1, 10, U32 + 1]
+_PTS = [I64MIN, -10, -1, 0, 1, 10, U32 + 1]
 RANGE_ALPHA = [(0,), (-1,), (U32 + 1,), ("'ff'H",), ("'00'H",)] + \
               [(a, b) for i, a in enumerate(_PTS) for b in _PTS[i + 1:]] + \
               [(0, U64), ("'0101'B", "'ffff'h"), ("'00'h", "'ff'H"), (-5, "'0'B"), (U32, U32 + 1), (0, 0)]
